@@ -345,6 +345,25 @@ def symbolic_getattr(interp, obj, name, default=None):
         raise
 
 
+def _getattr_static_always(interp, args, kwargs):
+    """inspect.getattr_static runs no code of the object: native on every candidate name"""
+    import inspect
+    obj, name = args[0], args[1]
+    if isinstance(name, StrVec):
+        _used("inspect.getattr_static(symbolic name)")
+        eng = E.current()
+        cands = candidate_attr_names(obj)
+        conds = [bterm(name.eq(c)) for c in cands]
+        none = z3.Not(z3.Or(*conds)) if conds else z3.BoolVal(True)
+        i = eng.fork(conds + [none])
+        if i == len(cands):
+            if len(args) > 2:
+                return args[2]
+            raise AttributeError("<symbolic>")
+        return inspect.getattr_static(obj, cands[i], *args[2:])
+    return inspect.getattr_static(*args, **kwargs)
+
+
 def _hasattr_always(interp, args, kwargs):
     obj, name = args
     try:
@@ -903,6 +922,7 @@ def install(interp):
     a[repr] = _repr_always
     a[hash] = _hash_always
     a[getattr] = _getattr_always
+    a[inspect.getattr_static] = _getattr_static_always
     a[hasattr] = _hasattr_always
     a[setattr] = _setattr_always
     a[iter] = _iter_always
